@@ -203,6 +203,7 @@ def run(tier, seed):
     chk.count('work_units', len(units))
     for part in pmap(run_unit, units):
         chk.merge(part)
+    chk.expect('executions', len(units))
     chk.assumptions = ["'does not return' is decided by a node-creation budget per public call, not wall clock",
                        "histories: micro product depth 2 incl. 1-ulp/sub-tolerance queries, sweeps of 130..60000 "
                        "steps, <=2 deviations"]
